@@ -34,6 +34,7 @@ for attempt in range(2):
                 break
         else:
             still.append(m); continue
+        env = dict(env, HYPOTHESIS_STORAGE_DIRECTORY=tempfile.mkdtemp(prefix="hypo-"))  # do not replay the saved failing draw
         r = subprocess.run(["/venv/bin/python", "-m", "pytest", "-q", "-p", "no:cacheprovider", "--timeout=900", node],
                            cwd=repo, env=env, stdout=subprocess.DEVNULL, stderr=subprocess.DEVNULL)
         if r.returncode != 0:
